@@ -86,6 +86,8 @@ type Exec struct {
 	pureExt       map[string]bool
 	usedContracts map[string]bool
 	matchedCalls  map[string]bool
+	pureFuncs     map[string]bool
+	mergingSnap   bool
 	exit          *State
 	bvN           int
 }
@@ -98,6 +100,7 @@ func (x *Exec) initMaps() {
 	x.pureExt = map[string]bool{}
 	x.usedContracts = map[string]bool{}
 	x.matchedCalls = map[string]bool{}
+	x.pureFuncs = map[string]bool{}
 	if x.regs == nil {
 		x.regs = map[ssa.Value]*Val{}
 	}
@@ -560,6 +563,11 @@ func (x *Exec) havocParam(t types.Type, name string) *Val {
 // setEdge records the out-state for edge b->succ.
 func (x *Exec) setEdge(b, succ *ssa.BasicBlock, st *State, cond *Term) {
 	k := [2]int{b.Index, succ.Index}
+	if termSize(cond) > 6 {
+		r := x.D.fresh(fmt.Sprintf("e%d_%d", b.Index, succ.Index), SBool)
+		x.asserts = append(x.asserts, tEq(r, cond))
+		cond = r
+	}
 	if x.isBackEdge(b, succ) {
 		x.closeLoop(x.loops[succ], st, cond)
 		return
@@ -632,7 +640,49 @@ func (x *Exec) val(st *State, v ssa.Value) *Val {
 	return nil
 }
 
+// nameTerm binds a large term to a fresh constant (definitional equality, unguarded) to keep queries small.
+func (x *Exec) nameTerm(hint string, t *Term) *Term {
+	if termSize(t) <= 10 {
+		return t
+	}
+	n := x.D.fresh("v."+hint, t.S)
+	x.asserts = append(x.asserts, tEq(n, t))
+	return n
+}
+
+func (x *Exec) nameVal(hint string, v *Val) *Val {
+	switch v.K {
+	case VScalar:
+		if _, isArr, _ := arrParts(v.T.S); isArr != "" {
+			return v
+		}
+		nt := x.nameTerm(hint, v.T)
+		if nt == v.T {
+			return v
+		}
+		c := *v
+		c.T = nt
+		return &c
+	case VStruct, VTuple, VSlice, VFloat:
+		changed := false
+		out := &Val{K: v.K, Typ: v.Typ}
+		for _, f := range v.F {
+			nf := x.nameVal(hint, f)
+			if nf != f {
+				changed = true
+			}
+			out.F = append(out.F, nf)
+		}
+		if !changed {
+			return v
+		}
+		return out
+	}
+	return v
+}
+
 func (x *Exec) setReg(v ssa.Value, val *Val) {
+	val = x.nameVal(v.Name(), val)
 	if val.Typ == nil {
 		val = &Val{K: val.K, T: val.T, F: val.F, Path: val.Path, Clo: val.Clo, Iter: val.Iter, Typ: v.Type(), SetOf: val.SetOf}
 	}
